@@ -189,6 +189,7 @@ fn pipe_stats(case: &PipeCase, out: &pipesim::WriteOutcome) -> RunStats {
     st.nonzero_decisions = out.nonzero_decisions;
     st.trace_hash = out.trace_hash;
     st.sink_ops = out.ops.len() as u64;
+    st.outcome_hash = hash_bytes(&out.image);
     let mut f = |k: &str, v: u64| {
         if v > 0 {
             st.faults.insert(k.to_string(), v);
